@@ -333,6 +333,18 @@ func (u unsendableCall) ToProto() proto.Message {
 	return &pb.GetRequest{Region: &pb.RegionSpecifier{Type: pb.RegionSpecifier_REGION_NAME.Enum(), Value: []byte("r")}}
 }
 
+// closingCall is a direct call during whose serialisation (ToProto runs after QueueRPC's liveness
+// check and before the call is registered) the connection is closed from outside.
+type closingCall struct {
+	*hrpc.Get
+	rc hrpc.RegionClient
+}
+
+func (u closingCall) ToProto() proto.Message {
+	u.rc.Close()
+	return u.Get.ToProto()
+}
+
 func (s *connScn) newCall(direct, app bool) *connCall {
 	idx := len(s.calls)
 	row := []byte(fmt.Sprintf("%c-row%d", "am"[idx%2], idx))
@@ -439,6 +451,11 @@ func (s *connScn) run(nSteps, maxCalls int, profile string) {
 				if unsendable {
 					c.call = unsendableCall{c.call.(*hrpc.Get)}
 				}
+				closing := direct && !app && !unsendable && profile == "fail" && !s.closedBy && s.rng.Intn(9) == 0
+				if closing {
+					c.call = closingCall{c.call.(*hrpc.Get), s.rc}
+					s.closedBy = true
+				}
 				// a call may be handed over with its context already done (direct calls only: the
 				// select in QueueBatch would be a coin toss)
 				pre := ""
@@ -458,6 +475,9 @@ func (s *connScn) run(nSteps, maxCalls int, profile string) {
 				}
 				if unsendable {
 					kind = "qu"
+				}
+				if closing {
+					kind = "qc"
 				}
 				if pre != "" {
 					s.steps = append(s.steps, strings.TrimSpace(pre))
